@@ -256,6 +256,7 @@ public:
   std::string tmpdir = "/verif/build/tmp";
 
   void init() {
+    driver_pid = getpid();
     sh    = shmap<Shared>(1);
     recs  = shmap<Rec>(rec_cap);
     nodes = shmap<Node>(node_cap);
@@ -282,9 +283,11 @@ public:
     return h;
   }
 
+  pid_t driver_pid = 0;
   std::string worker_log(int w) {
-    return tmpdir + "/sx-" + std::to_string(getpid()) + "-w" +
-           std::to_string(w) + ".log";
+    // named after the DRIVER's pid so parent and worker agree on the file
+    return tmpdir + "/sx-" + std::to_string(driver_pid ? driver_pid : getpid()) +
+           "-w" + std::to_string(w) + ".log";
   }
 
   void add_fail(uint32_t node, int op, uint64_t idx, const Fail& f) {
@@ -349,6 +352,9 @@ public:
     for (int i = 0; i < c.nops; ++i)
       R.alphabet += (i ? " | " : "") + c.opname(i);
     clear_tables();
+    sh->nfail.store(0);
+    for (int i = 0; i < SX_MAXFAIL; ++i)
+      sh->fails[i].used.store(0);
     nodes[0]      = Node{0, 0, 0};
     uint32_t nn   = 1; // node count
     uint32_t lo   = 0; // current level [lo,hi)
@@ -416,8 +422,10 @@ public:
       uint64_t nr = std::min<uint64_t>(sh->nrec.load(), rec_cap);
       R.executions += nr;
       R.transitions += nr;
-      if (aborted)
+      if (aborted) {
+        collect_fails(c, R); // also clears the table for the next case
         break;
+      }
       // deterministic order
       std::sort(recs, recs + nr, [](const Rec& a, const Rec& b) {
         return a.node != b.node ? a.node < b.node : a.op < b.op;
